@@ -28,6 +28,8 @@ Monitors (independent of the Coq model; evaluated on what the real compiler prod
     qlast    the statement's parsed AST contains an Insert/Update/DeleteQuery node, or a call of a user function
              whose body (transitively) does, and the unit is executed (non-empty SQL) => MODIFICATIONS
     fnvol    a user function whose body (transitively) contains DML is stored with volatility Modifying
+    fnsql    the SQL emitted for CREATE / ALTER FUNCTION writes an edgedbpub table => the function is stored
+             Modifying (a function compiled to a writing SQL function must not be callable without MODIFICATIONS)
     kind     DDL / migration commands => DDL; transaction control => TRANSACTION; SET ALIAS/MODULE and
              CONFIGURE SESSION / SET GLOBAL => SESSION_CONFIG; CONFIGURE DATABASE/INSTANCE => PERSISTENT_CONFIG
     group    QueryUnitGroup.capabilities == OR of the units' capabilities
@@ -513,6 +515,12 @@ def run_case(case):
                     memo = {}
                 except Exception:
                     pass
+            if isinstance(ql, (qlast.CreateFunction, qlast.AlterFunction)) and DML_TEXT.search(sql):
+                fname = getattr(ql.name, 'name', None)
+                for f in user_functions(cur_schema).get(fname, ()):
+                    if str(f.get_volatility(cur_schema)) != 'Modifying':
+                        bad.append(f'req{ri}.unit{ui}:fnsql:{fname}-compiled-to-writing-SQL-but-stored-'
+                                   f'{f.get_volatility(cur_schema)}')
         if int(grp.capabilities) != gor:
             bad.append(f'req{ri}:group:{int(grp.capabilities)}-is-not-the-union-{gor}')
         parts.append('K' + ','.join(cells) + '|' + str(int(grp.capabilities)))
